@@ -168,6 +168,11 @@ def boson_search(chk, n_cases):
         o = np.array([rng.choice([-1.0, -0.5, 0.0, 0.5, 1.0, 1.5]) for _ in range(d)])
         if len(set(o)) == 1:
             o[0] += 0.5
+        if it == 1:
+            # every run (this iteration also forces unique=True and a rotated basis): a repeated coupling eigenvalue,
+            # listed neither in ascending nor in a symmetric order
+            d = 3
+            o = np.array(rng.choice([[0.0, 1.0, 0.0], [1.0, 0.0, 1.0], [0.5, 0.5, -1.0], [0.0, 0.0, 1.0]]))
         E = np.array([rng.uniform(-1, 1) for _ in range(d)])
         V = haar(rng, d) if rng.random() < 0.7 else np.eye(d)
         O = V @ np.diag(o) @ V.conj().T
